@@ -497,7 +497,7 @@ theorem C10_covered_param_lazy (env : Env F) (p : Param F) (hc : Covered env p)
     exact ⟨C10_covered_tokens_lazy _ hst (Or.inr (Or.inr (Or.inr (Or.inl htok)))), hbf, ha, hs⟩
   | aggr a ety hty hder hred es inner hok hin before after hb ha =>
     exact absurd (by cases es <;> rfl) hk.1
-  | selTyped a n hty hder hred sd hsd m n0 ns hn0 hns hfind tok av hleaf sB sC hsB hsC before after hb ha =>
+  | selTyped a n hty hder hred sd hsd m n0 ns hn0 =>
     have := hk.2 n0 rfl
     rw [hn0] at this; cases this
   | selRef a n hty hder hred sd hsd m ds hne hds hhi hasg before after hb ha =>
@@ -506,6 +506,65 @@ theorem C10_covered_param_lazy (env : Env F) (p : Param F) (hc : Covered env p)
     rcases htok with h | h
     · exact ⟨C10_covered_tokens_lazy _ hst (Or.inr (Or.inr (Or.inr (Or.inl h)))), hbf, ha, hs⟩
     · exact ⟨C10_covered_tokens_lazy _ hst (Or.inr (Or.inr (Or.inl h))), hbf, ha, hs⟩
+
+theorem flatMap_congr_mem {α β} (f g : α → List β) : ∀ l : List α, (∀ x ∈ l, f x = g x) → l.flatMap f = l.flatMap g := by
+  intro l
+  induction l with
+  | nil => intro _; rfl
+  | cons a t ih =>
+    intro h
+    simp only [List.flatMap_cons]
+    rw [h a (by simp), ih (fun x hx => h x (List.mem_cons_of_mem _ hx))]
+
+/-- the entity references in a value the eager reader stores -/
+def atomRefs : Atom F → List Nat
+  | .ref i => [i.toNat]
+  | _ => []
+def elemRefs : Elem F → List Nat
+  | .atom a => atomRefs a
+  | .sel _ a => atomRefs a
+def valRefs : MVal F → List Nat
+  | .one e => elemRefs e
+  | .aggr es => es.flatMap elemRefs
+  | _ => []
+/-- the entity references an eagerly read instance holds, in attribute order -/
+def instRefs (i : MInst F) : List Nat := i.parts.flatMap (fun p => p.vals.flatMap valRefs)
+
+/-- for a covered scalar parameter the reference the lazy scanner records for the token is the reference in the value the eager reader
+    stores for it -/
+theorem C10_covered_param_refs (env : Env F) (p : Param F) (hc : Covered env p)
+    (hs : Small (p.before ++ (p.tok ++ p.after)))
+    (hk : p.tok.head? ≠ some 40 ∧ ∀ c, p.tok.head? = some c → StepModel.isAlpha c = false) : tokRefs p.tok = valRefs p.v := by
+  have hst : Small p.tok := hs.app.2.app.1
+  have plain : ∀ t : List Nat, t.all lplain = true → tokRefs t = [] := fun t ht => (lazyTok_refs t [] (LazyTok.plain t ht)).symm
+  cases hc with
+  | dollar a hopt hder hred before after hb ha =>
+    show [] = valRefs (nullOf a)
+    unfold nullOf
+    split
+    · rfl
+    · split <;> rfl
+  | star a hder hred before after hb ha => rfl
+  | integer a hty hder hred tok htok hlo hhi before after hb ha => exact plain tok (isInteger_lplain tok hst htok)
+  | ref a tg hty hder hred ds hne hds hhi hfound before after hb ha =>
+    show [StepModel.digitsVal ds 0] = [Int.toNat ((StepModel.digitsVal ds 0 : Nat) : Int)]
+    rw [Int.toNat_natCast]
+  | aggrInt a hty hder hred es inner hok hin before after hb ha => exact absurd (by cases es <;> rfl) hk.1
+  | string a hty hder hred b hb before after hbf ha => rfl
+  | enum a ty hty het hder hred name i hne hname hfind hset before after hbf ha => rfl
+  | binary a hty hder hred hex hne hhex before after hbf ha => rfl
+  | real a hty hder hred tok dec v htok hden hv hnn hbuf before after hbf ha => exact plain tok (isReal_lplain tok hst htok)
+  | aggr a ety hty hder hred es inner hok hin before after hb ha => exact absurd (by cases es <;> rfl) hk.1
+  | selTyped a n hty hder hred sd hsd m n0 ns hn0 =>
+    have := hk.2 n0 rfl
+    rw [hn0] at this; cases this
+  | selRef a n hty hder hred sd hsd m ds hne hds hhi hasg before after hb ha =>
+    show [StepModel.digitsVal ds 0] = [Int.toNat ((StepModel.digitsVal ds 0 : Nat) : Int)]
+    rw [Int.toNat_natCast]
+  | number a hty hder hred tok dec v htok hden hv hnn before after hbf ha =>
+    rcases htok with h | h
+    · exact plain tok (isReal_lplain tok hst h)
+    · exact plain tok (isInteger_lplain tok hst h)
 
 /-- the source skips comments as raw text (`sectionReader::skipComment`, regenerated; `fixes/C10-7`): the hypothesis `commentsRaw = true`
     of the theorems of this section holds for the tree the check runs on.  Does not elaborate on a tree where comments are skipped with
@@ -538,7 +597,8 @@ theorem lazyRecs_of_covered (env : Env F) (rs : List (Rec F × List Nat)) (hrec 
     any separator layout — blanks and comments — between any two tokens, forward and backward references) that also satisfies the lazy
     side's conditions `LazySide`: the eager model creates one instance per record, and the lazy scanner model (on the same bytes, as
     `Char`s) returns one index entry per record, in the same order, with the same instance id, the same entity keyword, and as forward
-    references exactly the `#n` parameter tokens of the record; the section is accepted and the counts agree.
+    references exactly the `#n` parameter tokens of the record — which are exactly the entity references in the values the eager reader
+    stores for the instance, in attribute order (`instRefs`); the section is accepted and the counts agree.
     Excluded inputs, spelled out: (1) what `C01_read_file_partial` excludes (aggregates of NUMBER / of aggregates / of selects, selects,
     external mappings, entities without attributes, user-defined entities, scopes); (2) parameters that are aggregates or typed SELECT values
     `KW(v)` — the lazy side covers the scalar kinds of `C10_covered_param_lazy`: `$`, `*`, numbers, strings, enumerations, binaries and
@@ -560,11 +620,12 @@ theorem C10_index_equals_eager_partial (ops : FloatOps F) (lex : LexCfg) (cfg : 
       es.map (fun e => ((e.id : Int), String.ofList e.kw)) =
         res.mgr.insts.map (fun i => (i.id, ((i.parts.map (·.name)).head?).getD "")) ∧
       es.map (·.refs) = rs.map (fun rg => paramsRefs rg.1.ps) ∧
+      es.map (·.refs) = res.mgr.insts.map instRefs ∧
       es.length = res.created := by
   obtain ⟨res, hres, hinsts, _, _, _, hcr, _⟩ :=
     C01_read_file_partial ops lex cfg d strict hskip hcri hagg rs g0 sp gE after hg0 hsp hgE hnd hrec
   have hlz' : LazyRecs rs := lazyRecs_of_covered _ rs hrec hlz
-  refine ⟨res, rs.map (fun rg => recEntry rg.1), hres, scan_recs hraw rs hlz' g0 sp _ hg0 hs0 hsp hssp, ?_, ?_, ?_⟩
+  refine ⟨res, rs.map (fun rg => recEntry rg.1), hres, scan_recs hraw rs hlz' g0 sp _ hg0 hs0 hsp hssp, ?_, ?_, ?_, ?_⟩
   · rw [hinsts]
     simp only [List.map_map]
     apply List.map_congr_left
@@ -578,6 +639,17 @@ theorem C10_index_equals_eager_partial (ops : FloatOps F) (lex : LexCfg) (cfg : 
     rw [hup]
     rfl
   · simp [List.map_map, Function.comp_def, recEntry]
+  · rw [hinsts]
+    simp only [List.map_map]
+    apply List.map_congr_left
+    intro rg hrg
+    obtain ⟨_, _, _, _, _, _, hcov⟩ := hrec rg hrg
+    have hl := hlz rg hrg
+    simp only [Function.comp, recEntry, finInst, instRefs, List.flatMap_cons, List.flatMap_nil, List.append_nil, paramsRefs,
+      List.flatMap_map]
+    apply flatMap_congr_mem
+    intro q hq
+    exact C10_covered_param_refs _ q (hcov q hq) (hl.smp q hq) (hl.scalar q hq)
   · rw [hcr]; simp
 
 /-- **`loadInstance` hands `STEPread` exactly the record's parameter list** (`_partial`).  For a record of the covered class standing
